@@ -128,6 +128,27 @@ func applyClass(class string, f gen.Field, d []byte, rng *rand.Rand) ([]byte, bo
 			out[f.Off+i] = 0xFF
 		}
 		return out, true
+	case "wrap32":
+		// the structure that follows is looked for at (position + size) mod 2^32 = the first structure of the file
+		if f.Size != 4 {
+			return nil, false
+		}
+		var v uint64
+		switch {
+		case f.Name == "png.chunklen" && f.Off > 8: // next chunk header = off + 8 + len + 4 (CRC)  ==  8 (first chunk)
+			v = 1<<32 - uint64(f.Off+12) + 8
+		case strings.HasPrefix(f.Name, "box.size:") && f.Off > 0: // next box = off + size  ==  0 (start of the file)
+			v = 1<<32 - uint64(f.Off)
+		default:
+			return nil, false
+		}
+		return f.Put(d, v), true
+	case "shrunk1", "shrunk3":
+		k := 1
+		if class == "shrunk3" {
+			k = 3
+		}
+		return shrinkFrame(f, d, k)
 	case "short": // a value shorter than the parser's fixed indices: NULs from the second byte on
 		out := append([]byte{}, d...)
 		for i := 1; i < f.Size; i++ {
@@ -140,6 +161,50 @@ func applyClass(class string, f gen.Field, d []byte, rng *rand.Rand) ([]byte, bo
 		return nil, false
 	}
 	return f.Put(d, v), true
+}
+
+// frameOf returns the byte range [start, end) a size field frames, and what the size counts from.
+func frameOf(f gen.Field, d []byte) (start, end int, ok bool) {
+	v := int(f.Get(d))
+	switch {
+	case strings.HasPrefix(f.Name, "box.size:"), f.Name == "PRVW.size", f.Name == "jpeg.seglen":
+		return f.Off, f.Off + v, v > f.Size && f.Off+v <= len(d)
+	case f.Name == "png.chunklen":
+		return f.Off + 8, f.Off + 8 + v, v > 0 && f.Off+8+v <= len(d)
+	}
+	return 0, 0, false
+}
+
+// shrinkFrame deletes the last k bytes of the frame of f and shortens f and every frame that contains it by k:
+// all sizes stay consistent with the bytes, only the content of the innermost frame ends early.
+func shrinkFrame(f gen.Field, d []byte, k int) ([]byte, bool) {
+	_, end, ok := frameOf(f, d)
+	if !ok || int(f.Get(d)) <= k+f.Size+4 {
+		return nil, false
+	}
+	out := append([]byte{}, d...)
+	// the fields are not known here: enclosing frames are found by scanning the same kinds of size fields
+	for _, g := range sizeFieldsOf(d, f) {
+		gs, ge, ok := frameOf(g, d)
+		if ok && gs <= f.Off && end <= ge && g.Off != f.Off {
+			out = g.Put(out, g.Get(d)-uint64(k))
+		}
+	}
+	out = f.Put(out, f.Get(d)-uint64(k))
+	return append(out[:end-k], out[end:]...), true
+}
+
+// sizeFieldsOf: the size fields that may enclose f (registered by buildFaultCases for the file being rewritten).
+var currentFields []gen.Field
+
+func sizeFieldsOf(d []byte, f gen.Field) []gen.Field {
+	var out []gen.Field
+	for _, g := range currentFields {
+		if g.Kind == "size" && g.Size >= 2 {
+			out = append(out, g)
+		}
+	}
+	return out
 }
 
 func pickField(fs []gen.Field, kind string, salt uint32) (gen.Field, bool) {
@@ -319,6 +384,7 @@ func buildFaultCases(r *core.Run, rng *rand.Rand, onlyBig bool) (cases []faultCa
 		for bi := range bases {
 			b := &bases[bi]
 			salt := hash32(pi, bi, r.Seed)
+			currentFields = b.fs
 			d := b.in.Data
 			what := "well-formed"
 			okPlan := true
@@ -381,6 +447,7 @@ func buildFaultCases(r *core.Run, rng *rand.Rand, onlyBig bool) (cases []faultCa
 		}
 		for bi := range bases {
 			b := &bases[bi]
+			currentFields = b.fs
 			for fi, f := range b.fs {
 				if f.Kind != faultShape[m.At-1] {
 					continue
